@@ -103,7 +103,7 @@ def body(E, n, m, scaling, bounds, restarts, max_runs=3, use_old_rk=True, increa
         for R in runs:
             E.prove(E.implies(E.no(E.isnan(R['ret'][2])), E.no(R['ret'][2] < soln.obj)), 'C08:outer:result-not-worse-than-any-non-nan-run')
         if soln.flag == E.get('EXIT_SUCCESS'):
-            E.prove(E.implies(anyok, E.no(E.isnan(soln.obj))), 'C10:outer:success-never-with-nan-when-a-finite-run-exists')
+            E.prove(E.isfinite(soln.obj), 'C10:outer:success-never-with-a-non-finite-objective')
         return
     # ---- C01: the starting point handed to every run lies inside the (scaled) box it is given
     for R in runs:
